@@ -407,6 +407,9 @@ def check(repo: Repo, run: Run) -> None:
     run.floor("C10.R1", n, 12)
     check_duration(repo, run)
     # R9: string(duration) is whole seconds followed by `s` - the text duration() reads back (instance shared with C11.D2)
+    # R11: a conversion that fails yields an error for the whole expression, also when it is the argument of another
+    # conversion: the evaluated arguments reach a function only after the error test (instances shared with C14.F8)
+    run.borrow(repo, "C14", "C10.R11", lambda o: o["rule"] == "C14.F8", 2)
     run.borrow(repo, "C11", "C10.R9", lambda o: o["rule"] == "C11.D2" and "__str__" in o["key"], 1)
     check_absent_vs_falsy(repo, run, "C10.R7")
     # R8: string(timestamp) renders the offset as sign, hours, minutes ------------------------------------
